@@ -97,10 +97,7 @@ func c13ErrKind(err error) string {
 func c13Validate(iv, sv cue.Value) (res string) {
 	defer func() {
 		if p := recover(); p != nil {
-			res = "panic:other"
-			if strings.Contains(fmt.Sprint(p), "is *errors.wrapped, not *adt.ValueError") {
-				res = "panic:disjunctError-wrapped-not-ValueError"
-			}
+			res = "panic"
 		}
 	}()
 	if iv.Unify(sv).Validate(cue.Concrete(true)) == nil {
@@ -114,11 +111,7 @@ func c13Eval(ctx *cue.Context, cs *c13Case, doGen bool) {
 	defer func() {
 		cs.evalMillis = time.Since(t0).Milliseconds()
 		if p := recover(); p != nil {
-			kind := "other"
-			if strings.Contains(fmt.Sprint(p), "is *errors.wrapped, not *adt.ValueError") {
-				kind = "disjunctError-wrapped-not-ValueError"
-			}
-			cs.importErr = "panic:" + kind
+			cs.importErr = "panic"
 		}
 	}()
 	se, err := cuejson.Extract("schema.json", []byte(cs.schemaTxt))
@@ -344,9 +337,9 @@ func c13Emit(c *Cfg, cs *c13Case) {
 	}
 	if cs.importErr != "" {
 		c.Count("import-outcome:" + cs.importErr)
-		if strings.HasPrefix(cs.importErr, "panic:") {
-			// a panic out of the public API is never acceptable
-			c.Direct(false, "extract-"+cs.importErr, "jsonschema.Extract / BuildFile / Unify panicked ("+cs.importErr+") on "+cs.schemaTxt, map[string]string{"schema": cs.schemaTxt})
+		if cs.importErr == "panic" {
+			// a panic out of the public API is never acceptable: always a violation (no known class)
+			c.Direct(false, "extract-panic", "jsonschema.Extract / BuildFile / Validate panicked on "+cs.schemaTxt, map[string]string{"schema": cs.schemaTxt})
 		}
 		return
 	}
@@ -359,9 +352,9 @@ func c13Emit(c *Cfg, cs *c13Case) {
 			nTrue++
 		}
 		c.Count("verdict:" + v)
-		if strings.HasPrefix(v, "panic:") {
-			// a panic out of Value.Unify / Validate: never acceptable, reported on its own
-			c.Direct(false, "extract-"+v, "instance.Unify(schema).Validate panicked ("+v+") on "+cs.schemaTxt+" with "+it, map[string]string{"schema": cs.schemaTxt, "instance": it})
+		if v == "panic" {
+			// a panic out of Value.Unify / Validate: never acceptable, always a violation
+			c.Direct(false, "validate-panic", "instance.Unify(schema).Validate panicked on "+cs.schemaTxt+" with "+it, map[string]string{"schema": cs.schemaTxt, "instance": it})
 			continue
 		}
 		tag := ""
